@@ -155,7 +155,7 @@ namespace cnl {
             [[nodiscard]] constexpr auto exp2(
                     scaled_integer<Rep, power<Exponent>> const& x, Rep const& floored)
             {
-                return floored <= Exponent
+                return static_cast<int>(floored) <= Exponent
                              ? rep_of_t<Intermediate>{1}  // return immediately if the shift would
                              // result in all bits being shifted out
                              // Do the shifts manually. Once the branch with shift operators is
